@@ -164,6 +164,7 @@ def dispatchOp (j : Json) : Except String Res := do
   | "pubworld" => pubWorldOp j
   | "ui" => uiOp j
   | "uistress" => uiStressOp j
+  | "mainpty" => mainPtyOp j
   | "paging" => pagingOp j
   | "splice" => spliceOp j
   | "history" => historyOp j
